@@ -12,6 +12,7 @@ import (
 	"encoding/json"
 	"fmt"
 	"math/big"
+	"strings"
 	"testing"
 
 	"golang.org/x/crypto/curve25519"
@@ -145,7 +146,11 @@ func (r rec) viol(sig, what string, scalar, u []byte, extra map[string]any) {
 
 // judge one (scalar, u) on all three entry points; want = RFC 7748 value
 func (r rec) judge(scalar, u []byte, apis string, extra map[string]any) {
-	want := refX25519(scalar, u)
+	r.judgeWant(scalar, u, refX25519(scalar, u), apis, extra)
+}
+
+// judgeWant: want = the RFC 7748 value, already computed by the caller
+func (r rec) judgeWant(scalar, u, want []byte, apis string, extra map[string]any) {
 	isZero := bytes.Equal(want, zero32)
 	if ev, err := ecdhValue(scalar, u); (err != nil) != isZero || (err == nil && !bytes.Equal(ev, want)) {
 		r.t.Fatalf("oracles disagree (math/big RFC 7748 vs crypto/ecdh) on scalar=%x u=%x: %x vs %x/%v", scalar, u, want, ev, err)
@@ -378,4 +383,95 @@ func TestSweep(t *testing.T) {
 			}
 		}
 	}
+}
+
+// ---------------------------------------------------------------- neighbourhoods (spec/X25519Nbhd.tla)
+
+type ncase struct {
+	Kind  string `json:"kind"` // "u": neighbourhood of a special u (scalars chosen here); "s": neighbourhood of a special scalar
+	Cls   string `json:"cls"`
+	U     []int  `json:"u"`
+	S     []int  `json:"s"`
+	Canon []int  `json:"canon"` // TLC: decodeUCoordinate(u), canonically re-encoded
+	Clamp []int  `json:"clamp"` // TLC: decodeScalar25519(s)
+	Err   bool   `json:"err"`   // TLC: Canon(u) is one of the five low-order values
+}
+
+func ib(x []int) []byte {
+	b := make([]byte, len(x))
+	for i, v := range x {
+		b[i] = byte(v)
+	}
+	return b
+}
+
+// TestNbhd: every neighbour TLC enumerated around the special encodings, with TLC's decoding, on the real package.
+func TestNbhd(t *testing.T) {
+	out := vutil.NewOut()
+	defer func() {
+		if err := out.Write(); err != nil {
+			t.Fatal(err)
+		}
+	}()
+	anchor(t)
+	r := rec{out, t}
+	nScalars := 2
+	if vutil.Thorough() {
+		nScalars = 6
+	}
+	var scalars [][]byte
+	for i := 0; i < nScalars; i++ {
+		scalars = append(scalars, rnd32(int64(1150+i)))
+	}
+	classes := map[string]int{}
+	err := vutil.ReadNDJSON(vutil.Env("VERIF_CASES", ""), func(line []byte) error {
+		var c ncase
+		if err := json.Unmarshal(line, &c); err != nil {
+			return err
+		}
+		u, canon := ib(c.U), ib(c.Canon)
+		if len(u) != 32 || len(canon) != 32 {
+			return fmt.Errorf("bad case %s", line)
+		}
+		classes[c.Cls]++
+		// TLC's decoding against the reference's own (a disagreement is a model/harness error, never a verdict)
+		um := append([]byte(nil), u...)
+		um[31] &= 0x7f
+		if new(big.Int).Mod(decodeLE(um), p25519).Cmp(decodeLE(canon)) != 0 {
+			t.Fatalf("model Canon(u) wrong for u=%x: %x", u, canon)
+		}
+		ss := scalars
+		if c.Kind == "s" {
+			s, cl := ib(c.S), ib(c.Clamp)
+			k := append([]byte(nil), s...)
+			k[0] &= 248
+			k[31] &= 127
+			k[31] |= 64
+			if !bytes.Equal(k, cl) {
+				t.Fatalf("model Clamp(s) wrong for s=%x: %x", s, cl)
+			}
+			ss = [][]byte{s}
+		} else if strings.HasPrefix(c.Cls, "basepoint-") || c.Cls == "nbhd:9" {
+			ss = append(append([][]byte{}, scalars...), make([]byte, 32))
+		}
+		for _, s := range ss {
+			// the RFC 7748 value of the decoded inputs: ladder(clamp(s), u mod 2^255 mod p)
+			sc := s
+			if c.Kind == "s" {
+				sc = ib(c.Clamp)
+			}
+			want := refX25519(sc, canon)
+			if c.Err != bytes.Equal(want, zero32) {
+				t.Fatalf("model low-order prediction wrong for u=%x (err=%v, value %x)", u, c.Err, want)
+			}
+			out.Case(fmt.Sprintf("nbhd|%x|%x", s, u))
+			r.judgeWant(s, u, want, "all", map[string]any{"class": c.Cls, "case": c})
+		}
+		out.Sample(map[string]any{"class": c.Cls, "u": hex.EncodeToString(u), "err": c.Err})
+		return nil
+	})
+	if err != nil {
+		t.Fatal(err)
+	}
+	out.Extra["neighbourhood_classes"] = classes
 }
